@@ -258,6 +258,40 @@ def opSess (toks : List String) : String :=
       "ok m=" ++ ",".intercalate (outcomes.map Ops.C04.showOutcome) ++ " |L " ++ showObs l.own ++
         String.join (l.observers.map (fun o => " |O " ++ showObs o))
   | _ => "bad-args"
+
+/-! ### round 5: one PROCESS, several comparers, a history of calls (`Sess.Proc`)
+
+`c03.proc C <ncomparers> (<quiet> F <nfiles> file* O <nobs> filter*)* H <ncalls> (<comparer idx> job)*`
+  (file / filter / job as in `c03.sess`; a job's file indices refer to the table of ITS comparer)
+result: `ok m=<merge outcome per call, in call order> (|C |L <own observer> (|O <project observer>)*)*` -/
+
+def opProc (toks : List String) : String :=
+  let p : P (List (Nat × List ObsM.File × List (Option ObsM.Filter)) × List (Nat × Sess.Job)) := do
+    expect "C"
+    let comps ← counted (do
+      let q ← nat
+      expect "F"
+      let files ← counted pFile
+      expect "O"
+      let filters ← counted (pSessFilter files)
+      pure (q, files, filters))
+    expect "H"
+    let calls ← counted (do
+      let c ← nat
+      match comps[c]? with
+      | some (_, files, _) => let j ← pJob files; pure (c, j)
+      | none => failure)
+    pure (comps, calls)
+  match p.run toks with
+  | some ((comps, calls), []) =>
+    let p0 := Sess.Proc.fresh (comps.map (fun c => (c.1, c.2.2)))
+    match Sess.Proc.run default p0 calls with
+    | .error e => "raise " ++ e.name
+    | .ok (p1, outcomes) =>
+      "ok m=" ++ ",".intercalate (outcomes.map Ops.C04.showOutcome) ++
+        String.join (p1.comparers.map (fun l => " |C |L " ++ showObs l.own ++
+          String.join (l.observers.map (fun o => " |O " ++ showObs o))))
+  | _ => "bad-args"
 end
 
 /-! ### round 4: Fluent `count_words` / `equals` on the fluent.syntax AST (CLModel/Compare/FluentEnt.lean)
@@ -349,6 +383,6 @@ def opKeyed (toks : List String) : String :=
   | _ => "bad-args"
 
 def ops : List (String × (List String → String)) :=
-  [("c03.cmp", opCmp), ("c03.add", opAdd), ("c03.words", opWords), ("c03.sess", opSess), ("c03.keyed", opKeyed),
+  [("c03.cmp", opCmp), ("c03.add", opAdd), ("c03.words", opWords), ("c03.sess", opSess), ("c03.proc", opProc), ("c03.keyed", opKeyed),
    ("c03.ftlwords", opFtlWords), ("c03.ftleq", opFtlEq), ("c03.ftlcmp", opFtlCmp)]
 end Ops.C03
